@@ -32,7 +32,7 @@ var ActorTypes = ActivityVocabularyTypes{
 // For example, a Profile object might be used as an actor, or a type from an ActivityStreams extension.
 // Actors are retrieved like any other Object in ActivityPub.
 // Like other ActivityStreams objects, actors have an id, which is a URI.
-type CanReceiveActivities Item
+type CanReceiveActivities = Item
 
 type Actors interface {
 	Actor
